@@ -103,6 +103,68 @@ def evaluate_dry(props, repo=None):
     return out
 
 
+SCRATCH = "/tmp/halo_verif_scratch"
+
+
+def sensitivity(prop, rule_fn, seed=0, limit=None):
+    """Thorough tier self-test: replay every seeded change recorded for this property (seeded/*/meta.json) on a scratch
+    copy of the CURRENT tree (outside /repo and /verif, removed afterwards) and report whether this property's rules fire.
+    Measures the checker, not the repository: never changes the exit code."""
+    import fcntl, random, shutil, subprocess
+    sd = os.path.join(VERIF, "seeded")
+    if not os.path.isdir(sd):
+        return {"mutants": 0}
+    cands = []
+    for name in sorted(os.listdir(sd)):
+        mp = os.path.join(sd, name, "meta.json")
+        pp = os.path.join(sd, name, "patch.diff")
+        if os.path.exists(mp) and os.path.exists(pp):
+            meta = json.load(open(mp))
+            if meta.get("property") == prop or prop in (meta.get("detected_by") or []):
+                cands.append((name, pp, meta))
+    rnd = random.Random(seed)
+    rnd.shuffle(cands)
+    if limit:
+        cands = cands[:limit]
+    res = {}
+    os.makedirs(SCRATCH, exist_ok=True)
+    lock = open(os.path.join(SCRATCH, "lock"), "w")
+    fcntl.flock(lock, fcntl.LOCK_EX)
+    known = load_known()
+    open_keys = {(k["property"], k["key"]) for k in known.get("open", [])}
+    try:
+        for name, pp, meta in cands:
+            work = os.path.join(SCRATCH, "repo")
+            shutil.rmtree(work, ignore_errors=True)
+            shutil.copytree(facts.REPO, work, ignore=shutil.ignore_patterns("target", ".git"), symlinks=True)
+            p = subprocess.run(["patch", "-p1", "-s", "-d", work, "-i", pp], stdout=subprocess.PIPE, stderr=subprocess.STDOUT, text=True)
+            if p.returncode != 0:
+                res[name] = {"applied": False}
+                continue
+            try:
+                d = facts.build_facts("dev", repo=work)
+                Pm = mir.Program(facts.load_facts(d))
+                c = Ctx(prop, Pm)
+                try:
+                    rule_fn(c)
+                except Exception as e:
+                    i = c.inst("%s.internal" % prop, "internal")
+                    i.fail("%s.internal" % prop, "-", "-", "analysis error %s" % e)
+                for i in c.instances:
+                    c.finish_floor(i)
+                fired = sorted({i.id for i in c.instances for f in i.failures if (prop, f["key"]) not in open_keys})
+                res[name] = {"applied": True, "detected": bool(fired), "firing_instances": fired[:8], "seeded_for": meta.get("property")}
+            except facts.BuildError as e:
+                res[name] = {"applied": True, "detected": None, "error": "does not build"}
+            finally:
+                shutil.rmtree(work, ignore_errors=True)
+    finally:
+        fcntl.flock(lock, fcntl.LOCK_UN)
+        lock.close()
+    det = sum(1 for r in res.values() if r.get("detected"))
+    return {"mutants": len(res), "detected": det, "not_applicable": sum(1 for r in res.values() if not r.get("applied")), "results": res}
+
+
 def run_property(prop, rule_fn, tier="quick", seed=0, level_text="", replay=None):
     t0 = time.time()
     try:
@@ -189,6 +251,13 @@ def run_property(prop, rule_fn, tier="quick", seed=0, level_text="", replay=None
         "violations": len(violations),
     }
     ev["coverage"].update(ctx.extra)
+    if tier == "thorough":
+        try:
+            ev["coverage"]["sensitivity_self_test"] = sensitivity(prop, rule_fn, seed)
+            ev["coverage"]["release_profile"] = {"overflow_checks": {c: m.get("overflow_checks") for c, m in (Prel.crate_meta.items() if Prel else [])}}
+        except Exception as e:
+            ev["coverage"]["sensitivity_self_test"] = {"error": str(e)[:300]}
+        ev["wall_s"] = round(time.time() - t0, 3)
     os.makedirs(EVID, exist_ok=True)
     with open(os.path.join(EVID, "%s.json" % prop), "w") as fh:
         json.dump(ev, fh, indent=1, default=str)
